@@ -259,10 +259,19 @@ func checkMain(args []string) int {
 	var funcs []string
 	var restricted []string
 	resOf := map[*Obligation]*FuncResult{}
+	gone := map[string]bool{}
 	for _, r := range pr.results {
 		funcs = append(funcs, r.Name)
 		for _, o := range r.Obls {
 			resOf[o] = r
+		}
+		if r.Gone {
+			// the function of this contract no longer exists and no other
+			// function took its name: deleted, or inlined into its callers.
+			// Its obligations are void; what its callers now do themselves is
+			// proved against their own contracts.
+			gone[r.Name] = true
+			continue
 		}
 		if r.Unsupported != "" {
 			undecided = append(undecided, fmt.Sprintf("%s: %s", r.Name, r.Unsupported))
@@ -549,6 +558,9 @@ func checkMain(args []string) int {
 		if strings.Contains(name, "/frame@") || strings.Contains(name, "/subtype-frame:") {
 			continue
 		}
+		if k := strings.Index(name, "/"); k > 0 && gone[name[:k]] {
+			continue
+		}
 		if !have[name] && isNamedKind(name) && !*writeLock {
 			missing++
 			undecided = append(undecided, "locked obligation no longer generated: "+name)
@@ -577,6 +589,9 @@ func checkMain(args []string) int {
 		for k := range r.Ctx.dropped {
 			dropped[k] = true
 		}
+	}
+	for g := range gone {
+		dropped["contract without a function: "+g+" no longer exists in /repo (deleted or inlined into its callers); its obligations are void, its callers are proved against their own contracts"] = true
 	}
 	trusted["M3: go/ssa (x/tools v0.29.0) builds SSA that means what the Go spec says; z3 4.8.12 / z3 5.1.0 / cvc5 1.0 are sound; vcgen implements DESIGN §4"] = true
 	trusted["A-NONNIL: nil-dereference panics are not checked unless a contract enables `option nilcheck`"] = true
